@@ -299,6 +299,16 @@ func c06Observe(f *benchproc.Filter, r *c06Res, want []bool, what string) *kit.F
 		wantAny = wantAny || w
 	}
 
+	switch {
+	case n == 0:
+	case wantAll:
+		kit.Count("truth: all measurements match", 1)
+	case !wantAny:
+		kit.Count("truth: no measurement matches", 1)
+	default:
+		kit.Count("truth: some but not all measurements match", 1)
+	}
+
 	res := c06Build(r)
 	before := c06Snap(res, true)
 	for round := 0; round < 2; round++ {
@@ -931,7 +941,6 @@ func c06ProjCheck(c c06ProjCase) *kit.Fail {
 		field *benchproc.Field
 		spec  c06Field
 	}
-	var fixed []fixedField
 	var all []fixedField
 	for i, text := range c.Texts {
 		proj, err := pp.Parse(string(text), f)
@@ -946,11 +955,7 @@ func c06ProjCheck(c c06ProjCase) *kit.Fail {
 			if fields[j].Name != string(spec.Key) {
 				return kit.Failf("projection-fields", "Parse(%q): field %d is %q, want %q", text, j, fields[j].Name, spec.Key)
 			}
-			ff := fixedField{proj, fields[j], spec}
-			all = append(all, ff)
-			if spec.Order == "fixed" {
-				fixed = append(fixed, ff)
-			}
+			all = append(all, fixedField{proj, fields[j], spec})
 		}
 	}
 	what := fmt.Sprintf("projections %q with filter %q", c.Texts, c.UserTxt)
@@ -988,24 +993,11 @@ func c06ProjCheck(c c06ProjCase) *kit.Fail {
 			kit.Count("fixed-list: result not listed in some fixed field", 1)
 		}
 		if fail := c06Observe(f, r, want, fmt.Sprintf("%s on %q cfg %v (listed=%v)", what, r.Name, r.Cfg, listed)); fail != nil {
-			if !listed || c06AnyTrue(want) {
-				// keep the root cause visible in the signature
-				fail.Sig = "fixedlist-" + fail.Sig
-			}
+			fail.Sig = "fixedlist-" + fail.Sig
 			return fail
 		}
 	}
-	_ = fixed
 	return nil
-}
-
-func c06AnyTrue(b []bool) bool {
-	for _, x := range b {
-		if x {
-			return true
-		}
-	}
-	return false
 }
 
 func c06SpellProj(r *kit.Rand, fields []c06Field) string {
@@ -1040,23 +1032,22 @@ func c06ProjGen(r *kit.Rand, i int) c06ProjCase {
 		c.Results = append(c.Results, c06GenRes(r, kit.Pick(r, []int{1, 2, 3, 33, 65})))
 	}
 	keys := []string{".name", ".fullname", "/size", "/k", "/gomaxprocs", "/é", "goos", "pkg", "k", ".file", "missing"}
-	perm := r.Perm(len(keys))
+	kit.Shuffle(r, keys)
+	if i%3 == 0 { // make the group key with exclusions frequent
+		for j, k := range keys {
+			if k == ".fullname" {
+				keys[0], keys[j] = keys[j], keys[0]
+			}
+		}
+	}
 	nexpr := r.Range(1, 2)
 	used := 0
 	haveFixed := false
 	for e := 0; e < nexpr; e++ {
 		var fields []c06Field
-		for k := r.Range(1, 3); k > 0 && used < len(perm); k-- {
-			key := keys[perm[used]]
+		for k := r.Range(1, 3); k > 0 && used < len(keys); k-- {
+			key := keys[used]
 			used++
-			if i%3 == 0 && e == 0 && len(fields) == 0 {
-				key = ".fullname" // make the group key with exclusions frequent
-				for j, p := range perm {
-					if keys[p] == ".fullname" {
-						perm[j] = perm[0]
-					}
-				}
-			}
 			f := c06Field{Key: kit.B(key)}
 			if r.Chance(0.6) || (!haveFixed && e == nexpr-1 && k == 1) {
 				f.Order = "fixed"
